@@ -25,6 +25,7 @@ ASSUMPTIONS = [
     'bit 7 of every 4th music byte is generated randomly and masked in the comparison (excepted by the property)',
 ]
 EXHAUSTIVE = {'quick': False, 'thorough': False}
+PYOPT_KINDS = (None,)
 
 
 def plan(tier, seed):
